@@ -12,7 +12,7 @@ from vcore.obl import Obl, DISCHARGED, REFUTED, UNDECIDED, ERROR
 
 GRAM = "pyab_experiment.language.grammar"
 FN = GRAM + ":ExperimentParser"
-PROPS_ALL = ("C02", "C05", "C06", "C07", "C08", "C11", "C12", "C13", "C15", "C03", "C10")      # "the grammar is the documented one": everything that quantifies over grammatical programs
+PROPS_ALL = ("C02", "C05", "C06", "C07", "C08", "C09", "C11", "C12", "C13", "C15", "C03", "C10")      # "the grammar is the documented one": everything that quantifies over grammatical programs
 
 
 def norm(v):
@@ -119,6 +119,8 @@ def link_grammar(ctx, mutate=None, tag=""):
     #      table generator; the LR driver loop itself stays an assumed contract)
     out.extend(lr_table_obligations(T, G, pre, rn))
     out.extend(accessor_obligations(T, pre))
+    if mutate is None and not tag:
+        out.extend(hash_seed_obligations(T, G, pre, rn))
     # ---- error(): must be a first-party override that always raises
     if T["error_is_sly_default"]:
         out.append(Obl(pre + "ExperimentParser.error/rejects(raises)", FN + ".error", "post",
@@ -180,6 +182,45 @@ def link_grammar(ctx, mutate=None, tag=""):
         except (S.Unsupported, S.Undetermined) as e:
             out.append(Obl(oid, FN + "." + key[0], "post", "action body inside the supported subset", status=UNDECIDED, backend="structural", detail=str(e), props=props))
     return out
+
+
+def hash_seed_obligations(T, G, pre, rn):
+    """the engine builds its tables at import time; nothing in them may depend on the interpreter's string-hash seed (set /
+    dict-of-set iteration order).  Bounded: the tables are dumped again in child interpreters with other PYTHONHASHSEED values;
+    grammar-level facts must be identical and each LR table must again equal the independent LALR(1) construction."""
+    def canon(t):
+        return {"precedence": t["precedence"], "start": t["start"], "tokens": t["tokens"], "sr": t["sr_conflicts"], "rr": t["rr_conflicts"],
+                "productions": sorted((p["name"], tuple(p["rhs"]), tuple(p["prec"]), tuple(p["names"])) for p in t["productions"]),
+                "probes": sorted((p["number"], str(sorted(p["by_name"].items())), str(p["by_index"])) for p in t.get("accessor_probes", []))}
+    base = canon(T)
+    base_lex = None
+    bad, n = [], 0
+    seeds = ("1", "2", "3", "5", "8", "13")
+    for seed in seeds:
+        try:
+            t2, l2 = native.batch([{"cmd": "parser_tables"}, {"cmd": "lexer_tables"}], env_extra={"PYTHONHASHSEED": seed})
+        except Exception as e:      # noqa
+            return [Obl(pre + "tables/hash-seed-independent", FN, "bounded", "tables can be dumped under other hash seeds", status=ERROR, backend="native-bounded", bounded=True,
+                        detail=repr(e)[-600:], props=("C01",) + PROPS_ALL)]
+        n += 1
+        c2 = canon(t2)
+        for k in base:
+            if c2[k] != base[k]:
+                bad.append({"PYTHONHASHSEED": seed, "differs": k, "here": str(base[k])[:300], "there": str(c2[k])[:300]})
+        sub = lr_table_obligations(t2, G, "seed%s:" % seed, rn)
+        for o in sub:
+            if o.status == REFUTED:
+                bad.append({"PYTHONHASHSEED": seed, "differs": o.id, "detail": str(o.detail)[:300]})
+        lx = {k: [(r["name"], r["pattern"], r["ignored"], r["has_func"]) for r in st["rules"]] + [st["master"]] for k, st in l2["states"].items()}
+        if base_lex is None:
+            base_lex = lx
+        elif lx != base_lex:
+            bad.append({"PYTHONHASHSEED": seed, "differs": "lexer rule tables"})
+    o = Obl(pre + "tables/hash-seed-independent", FN, "bounded", "grammar facts, production accessors, LR tables (vs the independent construction) and lexer rule tables are the same in child interpreters with PYTHONHASHSEED in %s" % (seeds,),
+            status=DISCHARGED if not bad else REFUTED, backend="native-bounded", bounded=True, detail=str(bad[:2]), props=("C01",) + PROPS_ALL,
+            model={"failing_input": bad[0]} if bad else None, meta={"coverage": {"evaluations": n, "bound": "%d hash seeds" % len(seeds)}})
+    o.replay = lambda ob: {"reproduced": True, "input": (ob.model or {}).get("failing_input"), "note": "tables dumped from the real classes in child interpreters with different hash seeds"}
+    return [o]
 
 
 def accessor_obligations(T, pre):
